@@ -73,27 +73,32 @@ def encodeUtf8 (s : Str) : ByteArray := (String.ofList s).toUTF8
 
 def joinPath (p : Path) : Str := joinWith ['/'] p
 
-/-- `work_dir.join(arg).get_txtpp_file()`: lexical components (std `Path::components` drops `.` and
-    empty components), candidates tested with `is_file` -/
-def FS.depOf (fs : FS) (cfg : Cfg) (wd : Path) (arg : Str) : Option Path :=
+/-- lexical part of `work_dir.join(arg)`: (components of the parent, file name); std
+    `Path::components` drops `.` and empty components -/
+def depSplit (cfg : Cfg) (wd : Path) (arg : Str) : Option (List Str × Str) :=
   match argComps cfg wd arg with
   | none => none
   | some (start, comps) =>
     let lex := comps.filter (fun c => c != [] && c != dot)
-    let (parentComps, name?) : List Str × Option Str :=
-      match lex.reverse with
-      | [] => (match start.reverse with | [] => ([], none) | n :: r => (r.reverse, some n))   -- the directory itself
-      | n :: r => (start ++ r.reverse, some n)
-    match name? with
+    match lex.reverse with
+    | [] => (match start.reverse with | [] => none | n :: r => some (r.reverse, n))   -- the directory itself
+    | n :: r => some (start ++ r.reverse, n)
+
+/-- `is_file` of the candidate `cand` in the directory `parentComps` -/
+def FS.existsAt (fs : FS) (parentComps : List Str) (cand : Str) : Bool :=
+  match fs.walk [] (parentComps ++ [cand]) with
+  | some p => fs.isFile p
+  | none => false
+
+/-- `work_dir.join(arg).get_txtpp_file()`: candidates tested with `is_file` -/
+def FS.depOf (fs : FS) (cfg : Cfg) (wd : Path) (arg : Str) : Option Path :=
+  match depSplit cfg wd arg with
+  | none => none
+  | some (parentComps, name) =>
+    if name = dotdot then none else
+    match PathName.getTxtppFile (fs.existsAt parentComps) name with
     | none => none
-    | some name =>
-      if name = dotdot then none else
-      let ex (cand : Str) : Bool := match fs.walk [] (parentComps ++ [cand]) with
-        | some p => fs.isFile p
-        | none => false
-      match PathName.getTxtppFile ex name with
-      | none => none
-      | some cand => fs.walk [] (parentComps ++ [cand])
+    | some cand => fs.walk [] (parentComps ++ [cand])
 
 /-- one action of a vocabulary command: (stdout, status ok, world) -/
 def runAct (cfg : Cfg) (wd : Path) (src : Str) (fs : FS) (kind arg : Str) : ByteArray × Bool × FS :=
